@@ -162,6 +162,8 @@ def impl(case):
     cd = np.array(c.displacements)
     out['ref_mean'] = float(np.abs(cd[:, refmask].mean(axis=1)).max()) if refmask.any() else None
     out['first_same'] = bool(np.array_equal(np.array(c.positions)[0], np.mod(np.array(case['coords'][0], dtype=float) / DEN, 1)))
+    # ... and equals the first frame the source itself reports
+    out['first_same_lib'] = bool(np.array_equal(np.array(c.positions)[0], np.array(_traj(case, case['coords']).positions)[0]))      # asked of a fresh, unqueried source
     out['meta_same'] = (c.metadata == t.metadata and c.time_step == t.time_step and [str(s) for s in c.species] == [str(s) for s in t.species]
                         and np.array_equal(np.asarray(c.lattice), np.asarray(t.lattice)))
     c2 = c.apply_drift_correction(**kw)
@@ -206,6 +208,8 @@ def oracle(case, out):
         fs.append(('drift/reference-mean-not-zero', f'mean displacement of the reference species {case["ref"]} after correction is {out["ref_mean"]}'))
     if not out['first_same']:
         fs.append(('drift/first-frame-changed', 'the first frame changed'))
+    elif out.get('first_same_lib') is False:
+        fs.append(('drift/first-frame-changed', 'the first frame of the corrected trajectory is not the first frame the source reports (positions)'))
     if not out['meta_same']:
         fs.append(('drift/metadata-changed', 'species / lattice / time step / metadata changed'))
     if out['idem'] > 1e-12:
